@@ -155,3 +155,178 @@ var c04ConcProp = kit.Prop[C04Case]{
 }
 
 func TestC04Concurrent(t *testing.T) { c04ConcProp.Main(t) }
+
+// TestC04LongConcurrent: subscribers that are far behind (more than a hundred
+// blocks) poll with a large chunk size while another goroutine keeps
+// reorganising the chain below their position (two branches from a low fork
+// point that overtake each other). Whatever the interleaving, every single
+// answer must be one contiguous path from the subscriber's index (reverts
+// first, each to its parent, then applies), of at most max updates, ending in
+// a ledger equal to the reference ledger of the index reached.
+func TestC04LongConcurrent(t *testing.T) {
+	d := kit.NewDirect(t, "C04", "long concurrent family: trunk of 20 blocks, two branches of 120+ blocks from it that overtake each other 8 times (every submission reorganises 120+ blocks), 3 goroutines that poll again and again from the same index at height 10 with chunk sizes 1000 / 150 / MaxInt while the submissions run; each answer must be one contiguous path from the subscriber's index with a final ledger equal to the reference; schedule-independent assertions only")
+	defer d.Done()
+	type lcase struct {
+		Round int `json:"round"`
+	}
+	rounds := 2
+	if kit.Thorough() {
+		rounds = 6
+	}
+	for round := 0; round < rounds; round++ {
+		lc := lcase{round}
+		cs := &kit.CaseStats{}
+		cs.NonTrivial()
+		err := func() error {
+			tc := kit.TreeCase{Net: kit.NetSpec{Maturity: 1, Allow: 1, ReqOff: 0, CutOff: 600}}
+			for i := 0; i < 20; i++ {
+				bs := kit.BlockSpec{Dt: 1, Miner: i % 4}
+				if i%3 == 1 {
+					bs.Txs = []kit.Intent{{Kind: "pay", V2: true, Who: i % 4, To: (i + 1) % 4, Pick: i, Amt: 2}}
+				}
+				tc.Blocks = append(tc.Blocks, bs)
+			}
+			trunk := len(tc.Blocks)
+			// branch A: 120 + 2*8 blocks, branch B: 121 + 2*8 blocks, interleaved in the list
+			lenA, lenB := 120+16, 121+16
+			for i := 0; i < lenA; i++ {
+				bs := kit.BlockSpec{Dt: 1, Miner: 1}
+				if i%11 == 3 {
+					bs.Txs = []kit.Intent{{Kind: "pay", V2: true, Who: 1, To: 2, Pick: i, Amt: 3}}
+				}
+				tc.Blocks = append(tc.Blocks, bs)
+			}
+			for i := 0; i < lenB; i++ {
+				bs := kit.BlockSpec{Dt: 1, Miner: 2}
+				if i == 0 {
+					bs.Back = lenA
+				}
+				if i%13 == 5 {
+					bs.Txs = []kit.Intent{{Kind: "pay", V2: true, Who: 2, To: 3, Pick: i, Amt: 1}}
+				}
+				tc.Blocks = append(tc.Blocks, bs)
+			}
+			tr := kit.BuildTree(tc)
+			for i, n := range tr.Nodes {
+				if n.Ledger == nil {
+					return fmt.Errorf("INFRA: block %d invalid: %v", i, n.Err)
+				}
+			}
+			node, err := kit.NewNode(tr, "mem")
+			if err != nil {
+				return fmt.Errorf("INFRA: %v", err)
+			}
+			defer node.Close()
+			for _, n := range tr.Nodes[:trunk] {
+				if err := node.Submit([]types.Block{n.Block}); err != nil {
+					return fmt.Errorf("INFRA: %v", err)
+				}
+			}
+			start := tr.Nodes[9] // height 10, on the trunk: an index every subscriber "previously reached"
+			chunks := []int{1000, 150, int(^uint(0) >> 1)}
+			stop := make(chan struct{})
+			errs := make([]error, len(chunks))
+			polls := make([]int, len(chunks))
+			var wg sync.WaitGroup
+			for w := range chunks {
+				wg.Add(1)
+				go func(w int) {
+					defer wg.Done()
+					defer func() {
+						if r := recover(); r != nil {
+							errs[w] = fmt.Errorf("poller %d panicked: %v", w, r)
+						}
+					}()
+					for {
+						select {
+						case <-stop:
+							return
+						default:
+						}
+						s := shadowFromLedger(start.Ledger)
+						rus, aus, err := node.CM.UpdatesSince(s.index, chunks[w])
+						polls[w]++
+						where := fmt.Sprintf("concurrent UpdatesSince(%v, %d) while the chain is being reorganised -> %d reverts, %d applies, err=%v", s.index, chunks[w], len(rus), len(aus), err)
+						if err != nil {
+							errs[w] = fmt.Errorf("%s", where)
+							return
+						}
+						if len(rus)+len(aus) > chunks[w] {
+							errs[w] = fmt.Errorf("%s: more updates than requested", where)
+							return
+						}
+						cur := s.index
+						for i, ru := range rus {
+							if ru.Block.ID() != cur.ID || ru.State.Index.ID != ru.Block.ParentID || ru.State.Index.Height+1 != cur.Height {
+								errs[w] = fmt.Errorf("%s: revert %d undoes %v (height %d), the subscriber is at %v: the answer is not one contiguous path", where, i, ru.Block.ID(), ru.State.Index.Height+1, cur)
+								return
+							}
+							s.revert(ru)
+							cur = ru.State.Index
+						}
+						for i, au := range aus {
+							if au.Block.ParentID != cur.ID || au.State.Index.Height != cur.Height+1 {
+								errs[w] = fmt.Errorf("%s: apply %d (%v) does not continue from %v: the answer is not one contiguous path", where, i, au.State.Index, cur)
+								return
+							}
+							s.apply(au)
+							cur = au.State.Index
+						}
+						tn := tr.ByID[cur.ID]
+						if tn == nil || tn.Ledger == nil {
+							errs[w] = fmt.Errorf("%s: reached %v, not a block of the tree", where, cur)
+							return
+						}
+						if cerr := s.compare(tn.Ledger); cerr != nil {
+							errs[w] = fmt.Errorf("%s: %w", where, cerr)
+							return
+						}
+					}
+				}(w)
+			}
+			// the submitter: A(120), B(121), A+2, B+2, ... each overtaking the other
+			a0, b0 := trunk, trunk+lenA
+			na, nb := 0, 0
+			for k := 0; k <= 8; k++ {
+				ta := 120 + 2*k
+				var batch []types.Block
+				for ; na < ta; na++ {
+					batch = append(batch, tr.Nodes[a0+na].Block)
+				}
+				if err := node.Submit(batch); err != nil {
+					close(stop)
+					wg.Wait()
+					return fmt.Errorf("INFRA: branch A refused: %v", err)
+				}
+				tb := 121 + 2*k
+				batch = nil
+				for ; nb < tb; nb++ {
+					batch = append(batch, tr.Nodes[b0+nb].Block)
+				}
+				if err := node.Submit(batch); err != nil {
+					close(stop)
+					wg.Wait()
+					return fmt.Errorf("INFRA: branch B refused: %v", err)
+				}
+			}
+			close(stop)
+			wg.Wait()
+			total := 0
+			for w, e := range errs {
+				if e != nil {
+					return e
+				}
+				total += polls[w]
+			}
+			cs.Add("long_polls", int64(total))
+			if total < 6 {
+				cs.Inconclusive("too-few-polls-overlapped")
+			}
+			if node.CM.Tip() != tr.Nodes[len(tr.Nodes)-1].Index() {
+				return fmt.Errorf("INFRA: the submitter did not end on branch B's tip")
+			}
+			return node.Audit()
+		}()
+		d.Case(lc, cs, err)
+	}
+}
